@@ -269,6 +269,7 @@ type gRun struct {
 	facts   map[string]bool
 	lenEq   map[int]int // opaque list object id -> known length
 	bounded bool        // some input list was enumerated up to gramListBound elements
+	inlineDepth int
 }
 
 const gramListBound = 2
@@ -1789,8 +1790,82 @@ func (r *gRun) call(i *ssa.Call) {
 		r.cbCalls++
 		return
 	}
+	if r.inlineCall(i, callee, args) {
+		return
+	}
 	r.fail("subset", i.Pos(), "call of %s is outside the modelled subset", full)
 	panic(gAbort{"unmodelled call"})
+}
+
+// inlineCall executes a loop-free helper of the module in place (an action refactored into a helper
+// must verify like the action it came from). Returns false when the callee is not eligible.
+func (r *gRun) inlineCall(i *ssa.Call, callee *ssa.Function, args []gv) bool {
+	if callee == nil || callee.Blocks == nil || !strings.HasPrefix(funcPkgPath(callee), modPath) || r.inlineDepth >= 3 {
+		return false
+	}
+	if len(args) != len(callee.Params) {
+		return false
+	}
+	r.inlineDepth++
+	defer func() { r.inlineDepth-- }()
+	for k, p := range callee.Params {
+		r.env[p] = args[k]
+	}
+	b := callee.Blocks[0]
+	var prev *ssa.BasicBlock
+	visited := map[*ssa.BasicBlock]int{}
+	for {
+		visited[b]++
+		if visited[b] > 1 {
+			panic(gAbort{"loop in helper " + callee.Name() + " called from the action (outside the modelled subset)"})
+		}
+		for _, in := range b.Instrs {
+			phi, ok := in.(*ssa.Phi)
+			if !ok {
+				break
+			}
+			for k, p := range b.Preds {
+				if p == prev {
+					r.env[phi] = r.val(phi.Edges[k])
+				}
+			}
+		}
+		var next *ssa.BasicBlock
+		for _, in := range b.Instrs {
+			switch x := in.(type) {
+			case *ssa.Phi:
+			case *ssa.If:
+				if r.truth(r.val(x.Cond), x.Pos()) {
+					next = b.Succs[0]
+				} else {
+					next = b.Succs[1]
+				}
+			case *ssa.Jump:
+				next = b.Succs[0]
+			case *ssa.Return:
+				switch len(x.Results) {
+				case 0:
+				case 1:
+					r.env[i] = r.val(x.Results[0])
+				default:
+					var tv gTuple
+					for _, rv := range x.Results {
+						tv = append(tv, r.val(rv))
+					}
+					r.env[i] = tv
+				}
+				return true
+			case *ssa.Panic:
+				panic(gAbort{"panic in helper " + callee.Name()})
+			default:
+				r.exec(in)
+			}
+		}
+		if next == nil {
+			panic(gAbort{"block without terminator in helper " + callee.Name()})
+		}
+		prev, b = b, next
+	}
 }
 
 // guardedCallbackHelper recognises, from the trace of the real function, a helper whose whole
